@@ -287,6 +287,24 @@ def run(ck: Checker):
         res_calls = [n for n in walk_shallow_func(outer.node) if isinstance(n, ast.Call) and method_of(n)[1] == 'result']
         ok = len(pn) == len(cn) and bool(res_calls) and is_name(method_of(res_calls[0])[0], cn[1])
     ck.ob('C18-7', outer, cons_t[0] if cons_t else outer.node, ok, f'consumer unpacks {cn} in the producer\'s order {pn} and waits on the future component' if ok else 'consumer unpack does not agree with the producer tuple / does not wait on the future component')
+    # ------------------------------------------------------------------ C18-9
+    ck.rule('C18-9', 'request ids stay unique while in flight: the client uses the address of the future as id, which is unique only as long as the in-flight table pins the future — the table entry is therefore removed only by the receiver when the response arrives (WHO)')
+    cl = mod.cls('SocketClient')
+    id_sites = [n for f_ in mod.functions.values() if f_.qualname.startswith('SocketClient.') for n in walk_shallow_func(f_.node) if isinstance(n, ast.Assign) and isinstance(n.value, ast.Call) and dotted(n.value.func) == 'id']
+    dels = []
+    for f_ in mod.functions.values():
+        if not f_.qualname.startswith('SocketClient.'):
+            continue
+        fsc = Scope(f_)
+        for n in walk_shallow_func(f_.node):
+            if isinstance(n, ast.Call) and method_of(n)[1] in ('pop', 'popitem', 'clear') and method_of(n)[0] is not None and (fsc.canon(method_of(n)[0]) or '') == 'self._active_requests':
+                dels.append((f_, n))
+            if isinstance(n, ast.Delete) and any(isinstance(t, ast.Subscript) and (fsc.canon(t.value) or '') == 'self._active_requests' for t in n.targets):
+                dels.append((f_, n))
+    outside = [(f_, n) for f_, n in dels if not f_.qualname.endswith('._keep_receiving')]
+    ok = bool(dels) and not outside
+    if id_sites or outside or not dels:
+        ck.ob('C18-9', cl.method('_open_connections'), (cl.node.lineno, 'in-flight table'), ok, 'entries of the in-flight table are removed only by the receiving task, on arrival of the response: the address used as request id cannot be reused while a response may still come' if ok else ('no removal from the in-flight table found' if not dels else 'the in-flight table is also emptied in ' + ', '.join(f'{f_.qualname} L{n.lineno}' for f_, n in outside) + ': the future of an abandoned request can be freed and its address — the request id — reused by a later request, which then receives the late response of the abandoned one (and loses its own)'))
     # ------------------------------------------------------------------ C18-8
     pm = ck.repo.module(PIPE)
 
@@ -315,9 +333,12 @@ def run(ck: Checker):
         probs.append('read/write paths are not stored from the (rpath, wpath) parameters in that order')
     opens = [n for n in walk_deep_func(base.node) if isinstance(n, ast.Call) and dotted(n.func) == 'os.open']
     for o in opens:
-        fn = None
-        # which path does it open, and is it wrapped readable/writable accordingly
-        pass
+        # Connection.send/recv assume a blocking descriptor: on a non-blocking FIFO a record larger than the free pipe
+        # buffer is written partly and then fails (BlockingIOError), which loses the object and garbles what follows
+        flags = {dotted(x) for a_ in o.args[1:] + [k.value for k in o.keywords] for x in ast.walk(a_) if isinstance(x, ast.Attribute)}
+        nb = sorted(f_ for f_ in flags if f_ and f_.split('.')[-1] in ('O_NONBLOCK', 'O_NDELAY'))
+        if nb:
+            probs.append(f'L{o.lineno}: the pipe is opened with {nb[0]}: a send that gets ahead of the reader by more than the pipe buffer writes part of a record and raises — the object is lost and the stream behind it is garbled')
     conns = [n for n in walk_deep_func(base.node) if isinstance(n, ast.Call) and (dotted(n.func) or '').endswith('connection.Connection')]
     wconn = [c for c in conns if any(k.arg == 'readable' and isinstance(k.value, ast.Constant) and k.value.value is False for k in c.keywords)]
     rconn = [c for c in conns if any(k.arg == 'writable' and isinstance(k.value, ast.Constant) and k.value.value is False for k in c.keywords)]
